@@ -13,7 +13,7 @@ G-PREC  binding precedence of the layers written into the keyword part: function
 import ast
 
 from .src import AnalysisError, unparse
-from .deps import DepEngine, AV, NOCONST
+from .deps import DepEngine, AV, NOCONST, join
 
 FIELD_ROOTS = ('SPEC',)
 SOURCE_CALLS = {'getfullargspec': 'SPEC', 'getargspec': 'SPEC'}
@@ -112,6 +112,31 @@ def rule_G(ctx, repo, want=('G-VAL', 'G-PREC')):
         if not ok:
             ctx.fail('G-VAL', fi.qual, 'variadic positionals dropped from the positional part',
                      'the positional part of the key returned by _keygen carries no value of *%s: extra positional arguments no longer discriminate' % r['args'][2:], where)
+    if 'G-VAL' in want:
+        # ---- independence of the binding sources: whether one kind of default reaches the key is not conditional on another kind being present
+        fieldof = {'FDEF': ('SPEC.defaults',), 'KWDEF': ('SPEC.kwonlydefaults',)}
+        names = {'FDEF': "the function's positional defaults", 'KWDEF': "the function's keyword-only defaults", 'PKW': "a partial's keywords"}
+        for s in main:
+            kw = s.val.elts[1]
+            if kw.alts is None:
+                continue
+            alts = [[(layer_classes(l, r), l) for l in alt] for alt in kw.alts]
+            for A, B in (('KWDEF', 'FDEF'), ('FDEF', 'KWDEF'), ('PKW', 'FDEF'), ('PKW', 'KWDEF')):
+                withA = [alt for alt in alts if any(A in c for c, _ in alt)]
+                lackB = [alt for alt in alts if not any(B in c for c, _ in alt)]
+                if not withA or not lackB:
+                    continue
+                alone = [alt for alt in withA if not any(B in c for c, _ in alt)]
+                cond = all(any(f in l.d for f in fieldof[B]) for alt in withA for c, l in alt if A in c)
+                ok = bool(alone) or not cond
+                ctx.ob('G-VAL', '%s reach the key whether or not there are %s' % (names[A], names[B]), ok)
+                if not ok:
+                    la = [l for c, l in withA[0] if A in c][0]
+                    ctx.fail('G-VAL', fi.qual, '%s merged only together with %s' % (A, B),
+                             '%s are written into the keyword part of the key only under a condition on %s (layer written at line %d), and no path merges them alone: '
+                             'for a function that has the former but not the latter the defaults never reach the key, so a call that spells the default out and one that '
+                             'omits it get different keys' % (names[A], names[B], la.where), '%s:%d' % (m.rel, la.where or s.lineno),
+                             ['layerings: ' + ' | '.join(' < '.join('+'.join(sorted(c)) or '-' for c, _ in alt) for alt in alts)])
     if 'G-PREC' in want:
         n = 0
         for s in main:
@@ -175,6 +200,106 @@ def rule_G_FORMS(ctx, repo):
         ctx.ob('G-FORMS', what, ok)
         if not ok:
             ctx.fail('G-FORMS', fi.qual, what, '_keygen: %s - calls differing only in an ignored argument get different keys' % msg, where)
+    # ---- '**': which keywords are "extra" is decided by the function's own parameter names, not by what a partial or the caller supplied
+    pk = (r['func'] + '.keywords', r['func'] + '.func.keywords')
+    n = 0
+    for s in eng.sites:
+        if s.kind != 'remove' or s.depth != 0 or 'TEST:**' not in s.ctx:
+            continue
+        # membership tests inside the statement that removes
+        stmt_nodes = set(id(x) for x in ast.walk(_enclosing_stmt(fi.node, s.node)))
+        for t in eng.sites:
+            if t.kind != 'member' or t.depth != 0 or id(t.node) not in stmt_nodes or t.val is None:
+                continue
+            n += 1
+            bad = sorted(L for L in t.val.v if L in pk)
+            ctx.ob('G-FORMS', "'**' exclusion set at line %d derives from the signature" % t.lineno, not bad)
+            if bad:
+                ctx.fail('G-FORMS', fi.qual, "'**' exclusion set includes a partial's keywords",
+                         "under ignore='**' _keygen keeps the keywords found in `%s`, a set that also holds the keywords a functools.partial was built with: a keyword the "
+                         "function only accepts through **kwds stops being ignorable once a partial presets it, so calls differing only in that keyword get different keys"
+                         % ' '.join(unparse(t.node.comparators[0]).split())[:40], '%s:%d' % (m.rel, t.lineno))
+    ctx.ob('G-FORMS', "'**' removal sites examined", True, n=max(1, n))
+
+
+def _enclosing_stmt(fnode, node):
+    for st in ast.walk(fnode):
+        if isinstance(st, ast.stmt) and not isinstance(st, (ast.If, ast.For, ast.While, ast.Try, ast.With, ast.FunctionDef)):
+            for x in ast.walk(st):
+                if x is node:
+                    return st
+    return node
+
+
+def truth_tests_of(fnode, name):
+    """places where the local `name` is tested for truthiness (if name / not name / name or X / X if name else Y) outside the else-chain of an
+    isinstance(name, ...) test"""
+    parents = {}
+    for n in ast.walk(fnode):
+        for ch in ast.iter_child_nodes(n):
+            parents[ch] = n
+
+    def is_name(x):
+        return isinstance(x, ast.Name) and x.id == name
+
+    hits = []
+    for n in ast.walk(fnode):
+        cands = []
+        if isinstance(n, (ast.If, ast.While, ast.IfExp)):
+            t = n.test
+            if is_name(t):
+                cands.append(t)
+            elif isinstance(t, ast.UnaryOp) and isinstance(t.op, ast.Not) and is_name(t.operand):
+                cands.append(t.operand)
+            elif isinstance(t, ast.BoolOp):
+                for v in t.values:
+                    if is_name(v) or (isinstance(v, ast.UnaryOp) and isinstance(v.op, ast.Not) and is_name(v.operand)):
+                        cands.append(v)
+        elif isinstance(n, ast.BoolOp) and not isinstance(parents.get(n), (ast.If, ast.While, ast.IfExp)):
+            for v in n.values[:-1]:
+                if is_name(v):
+                    cands.append(v)
+        for c in cands:
+            # excused when reached only after an isinstance(name, ...) test failed
+            cur, excused = n, False
+            while cur in parents:
+                par = parents[cur]
+                if isinstance(par, ast.If) and cur in par.orelse and any(
+                        isinstance(x, ast.Call) and isinstance(x.func, ast.Name) and x.func.id == 'isinstance' and x.args and is_name(x.args[0]) for x in ast.walk(par.test)):
+                    excused = True
+                cur = par
+            if not excused:
+                hits.append(c)
+    return hits
+
+
+def rule_G_ZERO(ctx, repo):
+    """G-FORMS (bare index 0): the ignore specification may be a single bare index, and 0 - the first parameter - is falsy.  Neither _keygen nor
+    the decorators that store the specification decide anything by its truthiness before it is wrapped into a sequence."""
+    m = repo.mod('_inspect')
+    fi = m.functions.get('_keygen')
+    if fi is None:
+        raise AnalysisError('anchor vanished: klepto/_inspect.py::_keygen')
+    r = _roles(fi)
+    targets = [(m, fi.qual, fi.node, r['ignored'][2:])]
+    for modname in ('_cache', 'safe'):
+        mm = repo.mod(modname)
+        for ci in mm.classes.values():
+            init = ci.methods.get('__init__')
+            if init is None:
+                continue
+            names = [a.arg for a in init.node.args.args + init.node.args.kwonlyargs]
+            if 'ignore' in names:
+                targets.append((mm, init.qual, init.node, 'ignore'))
+    if len(targets) < 5:
+        raise AnalysisError('instance count below confirmed minimum: %d holders of the ignore specification (< 5)' % len(targets))
+    for mm, qual, node, name in targets:
+        hits = truth_tests_of(node, name)
+        ctx.ob('G-FORMS', '%s: `%s` is never tested for truthiness while it may be a bare index' % (qual, name), not hits)
+        for h in hits:
+            ctx.fail('G-FORMS', qual, 'truthiness of the ignore specification',
+                     '%s tests `%s` for truthiness: the specification may be a single bare index, and index 0 (the first parameter) is falsy - ignore=0 is then '
+                     'treated as "ignore nothing", so calls that differ only in the first argument are evaluated separately' % (qual, name), '%s:%d' % (mm.rel, h.lineno))
 
 
 SPEC_FIELDS = ('args', 'defaults', 'varargs', 'varkw', 'kwonlyargs', 'kwonlydefaults')
@@ -241,17 +366,18 @@ def rule_SIG(ctx, repo):
     # ---- V-TARGET: the argspec is taken of the callable that will be bound (func, a partial's .func, an instance's __call__), never of
     # something a decorator wrapped: binding is decided by the wrapper's own signature
     n = 0
-    for s in eng.sites:
-        if s.kind != 'call' or not isinstance(s.node, ast.Call):
+    seen = set()
+    for node, sargs, fq in eng.source_sites:
+        if id(node) in seen or not sargs:
             continue
-        f = s.node.func
-        nm = f.attr if isinstance(f, ast.Attribute) else (f.id if isinstance(f, ast.Name) else None)
-        if nm not in SOURCE_CALLS or not s.args:
-            continue
+        seen.add(id(node))
         n += 1
-        arg = s.args[0]
+        arg = sargs[0]
         bad = sorted(L for L in arg.d | arg.v if L in LOOKTHROUGH or L.endswith('.__wrapped__'))
-        kw = [k.arg for k in s.node.keywords]
+
+        class s:          # the site, for the report
+            lineno = node.lineno
+        s.node = node
         ctx.ob('V-TARGET', '%s:%d %s' % (m.rel, s.lineno, ' '.join(unparse(s.node).split())[:50]), not bad)
         if bad:
             ctx.fail('V-TARGET', sig.qual, 'argspec of the wrapped function (%s)' % ', '.join(x.split(':')[-1].split('.')[-1] for x in bad),
@@ -260,6 +386,27 @@ def rule_SIG(ctx, repo):
                      '%s:%d' % (m.rel, s.lineno))
     if n < 1:
         raise AnalysisError('instance count below confirmed minimum: no getfullargspec call found in signature()')
+    # ---- V-FRESH: the signature is inspected at the time of the call.  A function object is mutable (__defaults__, __kwdefaults__, __code__ can be
+    # reassigned, and are by code that patches defaults): an argspec kept from an earlier call describes a function that no longer exists
+    from . import own
+    stale = []
+    tables = dict(eng.globals)
+    if '_keygen' in m.functions:
+        for name, av in run_keygen(repo)[3].globals.items():       # a memo of signature()'s result kept by the key generation
+            tables[name] = join(tables.get(name), av)
+    for name, av in sorted(tables.items()):
+        if any(L == 'SPEC' or L.startswith('SPEC.') for L in av.v):
+            stale.append(('the module-level table %s' % name, getattr(m.consts.get(name), 'lineno', sig.node.lineno)))
+    for fname, f2 in m.functions.items():
+        if own.is_memoised(m, f2.node) and any(isinstance(x, (ast.Attribute, ast.Name)) and (getattr(x, 'attr', None) in SOURCE_CALLS or getattr(x, 'id', None) in SOURCE_CALLS)
+                                                for x in ast.walk(f2.node)):
+            stale.append(('the memoised function %s' % fname, f2.node.lineno))
+    ctx.ob('V-FRESH', 'the argspec is not kept across calls', not stale)
+    for what, line in stale:
+        ctx.fail('V-FRESH', sig.qual, 'argspec kept in %s' % what,
+                 'the result of getfullargspec (or what signature() derived from it) is kept in %s and serves it to later calls: after f.__defaults__ / __kwdefaults__ / __code__ is reassigned '
+                 'validate and the key generation still use the old signature - a parameter that gained a default is still demanded, a changed default is keyed '
+                 'with its old value' % what, '%s:%d' % (m.rel, line))
     # ---- V-POS: the tuple of names that positional arguments are bound to derives from argspec.args only
     rets = [s for s in eng.sites if s.kind == 'return' and s.depth == 0 and s.val is not None and s.val.elts]
     full = [s for s in rets if len(s.val.elts) >= 2 and 'SPEC.args' in s.val.elts[0].v]
